@@ -879,6 +879,11 @@ fn same_serialised(a: &Gcv, b: &Gcv) -> bool {
     a.as_bdd().to_string() == b.as_bdd().to_string()
 }
 
+/// The `.bdd` entries (label -> BDD text) of a readable archive at `path`.
+fn archive_snapshot(path: &str) -> Option<BTreeMap<String, String>> {
+    read_entries(path).ok().map(|e| e.iter().filter_map(|(n, b)| n.strip_suffix(".bdd").map(|l| (l.to_string(), String::from_utf8_lossy(b).to_string()))).collect())
+}
+
 fn pinned(sc: &C16, ops: Vec<Op>) -> Value {
     let mut s = sc.clone();
     s.ops = ops;
@@ -966,6 +971,10 @@ pub fn check(world: &World, sc: &C16, sandbox: &str) -> Report {
         Stale,
     }
     let mut disk = Disk::Absent;
+    // the complete, valid archive (label -> BDD text) that was at the path before the last Save that
+    // was not acknowledged: a failed Save may leave it in place (write-to-temporary-and-rename does,
+    // and so does a failed open), and reading *that* back is not wrong data
+    let mut prev: Option<BTreeMap<String, String>> = None;
     let mut loaded: Option<HashMap<String, Gcv>> = None;
     let mut sig = fnv1a(format!("{}{}{}", sc.sets.len(), sc.formulae.len(), fmt).as_bytes());
 
@@ -987,6 +996,12 @@ pub fn check(world: &World, sc: &C16, sandbox: &str) -> Report {
                     cx.apply_pre(p, &mut rep);
                 }
                 let dir_in_the_way = std::path::Path::new(&cx.path).is_dir();
+                let before = match pre {
+                    Some(Pre::LargerValid) => archive_snapshot(&cx.path),
+                    Some(_) => None,
+                    None if disk == Disk::Good || disk == Disk::Stale => archive_snapshot(&cx.path),
+                    None => None,
+                };
                 let (r, fired, trace) = cx.save(plan, *hash_seed, &sc.formulae);
                 rep.event(format!("save [{plan}] {} fired={fired:?} trace={:016x}", r.describe(), fnv1a(trace.as_bytes())));
                 rep.probe("saves", 1);
@@ -1002,6 +1017,7 @@ pub fn check(world: &World, sc: &C16, sandbox: &str) -> Report {
                         }
                         cx.verify_acknowledged(&sc.formulae, sc.cli_form, &mut rep, &how);
                         disk = Disk::Good;
+                        prev = None;
                         if first_mtime.is_none() {
                             first_mtime = std::fs::metadata(&cx.path).and_then(|m| m.modified()).ok();
                         }
@@ -1012,7 +1028,8 @@ pub fn check(world: &World, sc: &C16, sandbox: &str) -> Report {
                         } else {
                             rep.probe("saves_failed_under_fault", 1);
                         }
-                        disk = if pre == Some(&Pre::LargerValid) && fired.iter().any(|(n, _)| n == "fault_open_error") { Disk::Stale } else { Disk::Suspect };
+                        disk = Disk::Suspect;
+                        prev = before;
                     }
                     Outcome::Panic(p) => {
                         if fired.is_empty() && !dir_in_the_way {
@@ -1020,13 +1037,15 @@ pub fn check(world: &World, sc: &C16, sandbox: &str) -> Report {
                         } else {
                             rep.probe("saves_panicked_under_fault", 1);
                         }
-                        disk = if pre == Some(&Pre::LargerValid) && fired.iter().any(|(n, _)| n == "fault_open_error") { Disk::Stale } else { Disk::Suspect };
+                        disk = Disk::Suspect;
+                        prev = before;
                     }
                 }
                 loaded = None;
             }
             Op::CrashSave { kill_w, let_through, pre, hash_seed } => {
                 cx.apply_pre(pre, &mut rep);
+                let before = if *pre == Pre::LargerValid { archive_snapshot(&cx.path) } else { None };
                 let code = crash_save_child(&cx, sc, sandbox, *kill_w, *let_through, *hash_seed);
                 rep.event(format!("crash_save kill_w={kill_w}:{let_through} exit={code:?}"));
                 rep.probe("crash_saves", 1);
@@ -1035,15 +1054,18 @@ pub fn check(world: &World, sc: &C16, sandbox: &str) -> Report {
                     Some(137) => {
                         rep.probe("fault_kill", 1);
                         disk = Disk::Suspect;
+                        prev = before;
                     }
                     Some(0) => {
                         // the kill point lay beyond the last write: an acknowledged save by a child
                         cx.verify_acknowledged(&sc.formulae, sc.cli_form, &mut rep, &format!("op {oi} Save in child process (kill point beyond last write)"));
                         disk = Disk::Good;
+                        prev = None;
                     }
                     Some(3) => {
                         // the child reported Err (e.g. a directory at the path)
                         disk = Disk::Suspect;
+                        prev = before;
                     }
                     other => {
                         rep.skipped = Some(format!("crash child exited with {other:?}"));
@@ -1111,7 +1133,16 @@ pub fn check(world: &World, sc: &C16, sandbox: &str) -> Report {
                     }
                 }
                 let how = format!("op {oi} Load[{plan}]{}", if is_final { " (final fault-free load)" } else { "" });
-                let complete = if disk == Disk::Stale {
+                let is_prev = disk == Disk::Suspect
+                    && match (&r, &prev) {
+                        (Outcome::Ok(m), Some(p)) => !m.is_empty() && m.iter().all(|(l, s)| p.get(l).map(|t| *t == s.as_bdd().to_string()).unwrap_or(false)),
+                        _ => false,
+                    };
+                let complete = if is_prev {
+                    // the failed Save left the earlier archive in place, and that is what came back
+                    rep.probe("loads_returning_the_archive_a_failed_save_left_in_place", 1);
+                    false
+                } else if disk == Disk::Stale {
                     // the previous run's archive may legitimately still be there: nothing to judge
                     rep.probe("loads_of_stale_archive", 1);
                     false
@@ -1249,6 +1280,7 @@ pub fn check(world: &World, sc: &C16, sandbox: &str) -> Report {
                     }
                 }
                 disk = Disk::Suspect;
+                prev = None;
                 loaded = None;
             }
             Op::SweepLoad { kind, stride } => {
